@@ -146,6 +146,30 @@ for _pid, extra in ROUND8.items():
     e, lvl, tech, text, note, ref = CHECKS[_pid]
     CHECKS[_pid] = (e, lvl, tech, text + extra, note, ref)
 
+# Round 9: two cooperating sites; unusual but legal values from the peer. And the other direction: property-preserving
+# changes (60 of them, written by sub-agents told to keep all twenty properties true) against which the checks must stay
+# silent - several oracles that had fitted themselves to the present implementation were re-cut to the statements.
+ROUND9 = {
+ "C02": " Cookie Responses under a key the server did not ask for (a genuine authentication cookie in the session cookie's slot, Login and Transfer intent).",
+ "C03": " Targets that share one identifier and differ in their address; 34 client locales that are not shaped like ll_cc (pattern characters, letter case, characters whose lower-case form has another length, blanks, NUL); a lookup that ignores letter case is accepted as well.",
+ "C04": " The same 34 odd locales on both Disconnect paths; a handler that never gives control back (spins inside one poll) is turned into a verdict by a per-case watchdog instead of hanging the check.",
+ "C06": " Cookie Requests may be sent ahead of the answers they do not depend on (the statement fixes the order the client sees, not lock-step); the status service may be asked any time after a status handshake.",
+ "C07": " The odd locales for silent and for wrongly echoing clients; the name of the error a timed-out connection ends with is not judged.",
+ "C08": " Eight scenarios with byte streams a well-behaved client would not produce but may: length prefixes written with 2, 3 and 5 bytes (status exchange and whole logins), and an empty frame between two frames - whatever the router makes of them, it makes of them under every segmentation.",
+ "C10": " A refreshed cookie for a returning player may carry the original time stamp.",
+ "C12": " Sixteen untidy claimed names through whole connections (control characters, blanks at the ends, letter case, composed and decomposed accents, full-width letters): the request asks about the name as claimed, or the client is turned away without any request.",
+ "C13": " 'No more than limit admissions between two window starts' is judged for ANY placement of window starts at least one duration apart (a limiter may keep its windows per key or on one grid for all keys); through the Listener, pairs of addresses that a conversion between IPv4 and IPv6 forms would fold together.",
+ "C14": " A configuration without any secret (cookies signed with the empty key, some key, a line break: none validates); a completed status exchange followed by a trickle of bytes; frames that must be served are legal in every other respect too (host names within 255 UTF-16 units); children started through passage::start are ready when they themselves hold the listening socket.",
+ "C15": " PROXY version 2 headers that name the datagram transport (served as the announced source or not at all, never as the load balancer).",
+ "C16": " An address that used its budget up comes back at six moments of the limiter's cycle (inside the window, during the roll-over, after the clean-up): clients from other addresses are still served within the bound; a refusal may take the form of a reset that overtakes connect().",
+ "C17": " Three histories (limiter + PROXY protocol) of connections accepted before the stop whose header arrives after it; a client that keeps sending after its Transfer under a 2 s connection timeout; an in-flight connection is known to be accepted because a later connection was served, not because time has passed.",
+ "C18": " Metadata keys present with an empty value; a player name outside [A-Za-z0-9_].",
+ "C20": " Game servers in two namespaces, so that a cluster-wide list (namespace, then name) is not sorted by name.",
+}
+for _pid, extra in ROUND9.items():
+    e, lvl, tech, text, note, ref = CHECKS[_pid]
+    CHECKS[_pid] = (e, lvl, tech, text + extra, note, ref)
+
 ALL = ["C%02d" % i for i in range(1, 21)]
 NOT_YET = {}
 
